@@ -962,7 +962,7 @@ theorem any_isRem_iff (l : List PortionSpec) : l.any isRemP = decide (1 ≤ nRem
     rw [List.any_cons, nRem_cons, ih]
     cases isRemP p <;> simp
 
-theorem checkPortions_eq (Γ : TEnv) (ps : List PortionSpec) :
+theorem checkPortions_eqP (Γ : TEnv) (ps : List PortionSpec) :
     checkPortions Γ ps =
       (!ps.any isBadP && ps.all (varOkP Γ) && decide (nRem ps ≤ 1) && decide ((ratSum (constPortions ps)).1 ≤ (ratSum (constPortions ps)).2) &&
         (if (ratSum (constPortions ps)).1 < (ratSum (constPortions ps)).2 then decide (nRem ps = 1) else !ps.any isVarP && decide (nRem ps = 0))) := by
@@ -995,7 +995,7 @@ theorem visitAllotment_ck {st : CState} {Γ : TEnv} (hinv : Inv st Γ) (ps : Lis
   have hp := visitPortions_ck hinv ps.reverse false false
   have hck : portionsCk Γ ps.reverse false = (!ps.any isBadP && ps.all (varOkP Γ) && decide (nRem ps ≤ 1)) := by
     simp [portionsCk, nRem_reverse]
-  rw [checkPortions_eq]
+  rw [checkPortions_eqP]
   rw [hck] at hp
   cases hv : visitPortions st ps.reverse false false with
   | error e =>
@@ -1116,7 +1116,7 @@ theorem visitKD_ck {st : CState} {Γ : TEnv} (hinv : Inv st Γ) (kd : KeptOrDest
     CkSpec (visitKD st kd) (checkKD Γ kd) (fun r => Ext st r.2) := by
   cases kd with
   | kept => simp only [visitKD, checkKD]; exact ⟨rfl, Ext.refl _⟩
-  | to d => simp only [visitKD, checkKD]; exact visitDest_ck hinv d
+  | «to» d => simp only [visitKD, checkKD]; exact visitDest_ck hinv d
 theorem visitCaps_ck {st : CState} {Γ : TEnv} (hinv : Inv st Γ) (cs : CapList) :
     CkSpec (visitCaps st cs) (checkCaps Γ cs) (fun r => Ext st r.2) := by
   cases cs with
